@@ -1,6 +1,6 @@
 """C16 — stream sockets: bounded control-message traversal, try-variants never block, Timeout only from an expired poll,
 pointer/length agreement at the kernel boundary, address construction."""
-from ..engine.prov import const_value, strip_casts, walk, walk_deep, show
+from ..engine.prov import walk as _walk16, const_value, strip_casts, walk, walk_deep, show
 from ..engine.dtable import canon
 from ..engine.fold import fold, fold_ip
 from ..engine.cfg import is_raw_syscall, span_str
@@ -99,6 +99,10 @@ def run_one(ck, prog):
         # the step to the next header uses the ALIGNED length: (cmsg_len + 7) & !7 (a payload that is not a multiple of 8 - one or
         # three descriptors - is followed by padding; stepping by the raw length lands inside it)
         is_len = lambda z: z[0] == "field" and z[2] == "cmsg_len"  # noqa: E731
+        # "this expression reads cmsg_len": looked for without expanding merged variables - a loop-carried header pointer (`cmsg = following`)
+        # stands for the pointer, not for the length that was used to compute it one round earlier
+        from ..engine.prov import walk as _walk
+        reads_len = lambda x: any(is_len(z) for z in _walk(x))  # noqa: E731
         n_aligned, raw_steps = 0, []
         roots = []      # expressions that decide where the next header is: what is stored into cmsg_prev, and the tests guarding it
         for b in it[0]["blocks"]:
@@ -122,11 +126,11 @@ def run_one(ck, prog):
             for e in walk_deep(root, ctx.prov, limit=400):
                 if e[0] == "bin" and e[1] == "Add":
                     for side, other in ((e[2], e[3]), (e[3], e[2])):
-                        if not mentions(side, ctx.prov, is_len):
+                        if not reads_len(side):
                             continue
                         ss = strip_casts(side)
-                        aligned = isinstance(ss, tuple) and ss[0] == "bin" and ss[1] in ("BitAnd", "Add", "Sub") and mentions(ss, ctx.prov, lambda z: z[0] == "bin" and z[1] == "BitAnd" and fold(z[3]) in (0xFFFFFFFFFFFFFFF8, -8))
-                        rounding = fold(other) in (7, 8) and not mentions(side, ctx.prov, lambda z: z[0] == "bin" and z[1] == "BitAnd")
+                        aligned = isinstance(ss, tuple) and ss[0] == "bin" and ss[1] in ("BitAnd", "Add", "Sub") and any(z[0] == "bin" and z[1] == "BitAnd" and fold(z[3]) in (0xFFFFFFFFFFFFFFF8, -8) for z in _walk(ss))
+                        rounding = fold(other) in (7, 8) and not any(z[0] == "bin" and z[1] == "BitAnd" for z in _walk(side))
                         if not aligned and not rounding:
                             raw_steps.append((sp, show(e)[:120]))
         ck.floor("C16.1", "expressions locating the next header", len(roots), 2)
@@ -141,8 +145,25 @@ def run_one(ck, prog):
         ck.floor("C16.1", "ScmRights yields", len(yields), 1)
         for yb in yields:
             facts = panics.dominating_facts(ctx, yb)
-            def tested(fld):
-                return any(f[0] == "cmp" and f[1] == "Eq" and ((fold(f[3]) == 1 and mentions(f[2], ctx.prov, lambda z: z[0] == "field" and z[2] == fld)) or (fold(f[2]) == 1 and mentions(f[3], ctx.prov, lambda z: z[0] == "field" and z[2] == fld))) for f in facts)
+            def tested(fld, facts=facts, depth=0):
+                if any(f[0] == "cmp" and f[1] == "Eq" and ((fold(f[3]) == 1 and mentions(f[2], ctx.prov, lambda z: z[0] == "field" and z[2] == fld)) or (fold(f[2]) == 1 and mentions(f[3], ctx.prov, lambda z: z[0] == "field" and z[2] == fld))) for f in facts):
+                    return True
+                # the test may have been made where an Option was built that is taken apart here (`let fd_count = if kind matches { Some(..) }
+                # else { None }; .. if let Some(..) = fd_count`): every `Some` definition of that local stands under the test
+                for f in facts:
+                    v = strip_casts(f[1]) if f[0] == "variant" and f[2] == "Some" and isinstance(f[1], tuple) else None
+                    if depth == 0 and isinstance(v, tuple) and v[0] == "var":
+                        somes = []
+                        for (dbb, didx) in ctx.prov.defs.get((v[1], None), []):
+                            try:
+                                st_ = ctx.cfg.block(dbb)["stmts"][didx]
+                            except (TypeError, IndexError):
+                                continue
+                            if st_["k"] == "assign" and st_["rv"]["k"] == "agg" and st_["rv"].get("variant") == "Some":
+                                somes.append(dbb)
+                        if somes and all(tested(fld, panics.dominating_facts(ctx, b_), 1) for b_ in somes):
+                            return True
+                return False
             ck.ob("C16.1", "descriptors-only-from-an-scm-rights-header|level", tested("cmsg_level"), fn=it[0]["path"], site=ctx.site(yb), detail="ScmRights may be produced only under cmsg_level == SOL_SOCKET (1)")
             ck.ob("C16.1", "descriptors-only-from-an-scm-rights-header|type", tested("cmsg_type"), fn=it[0]["path"], site=ctx.site(yb), detail="ScmRights may be produced only under cmsg_type == SCM_RIGHTS (1); other socket-level ancillary data would be decoded as descriptors that were never passed")
         # ... and a message of another kind is SKIPPED, not the end: the iteration answers None only for want of a further header. With
@@ -173,8 +194,8 @@ def run_one(ck, prog):
                 if st4["k"] == "assign" and st4["rv"]["k"] == "binop" and str(st4["rv"].get("op", "")).startswith("Sub"):
                     n_sub += 1
                     e4 = cx4.prov.rvalue(st4["rv"], (b4["id"], i4))
-                    if isinstance(e4, tuple) and e4[0] in ("bin", "overflow") and mentions(e4[3], cx4.prov, lambda z: z[0] == "field" and z[2] == "cmsg_len") and \
-                            not mentions(e4[2], cx4.prov, lambda z: z[0] == "field" and z[2] == "cmsg_len"):
+                    if isinstance(e4, tuple) and e4[0] in ("bin", "overflow") and any(z[0] == "field" and z[2] == "cmsg_len" for z in _walk16(e4[3])) and \
+                            not any(z[0] == "field" and z[2] == "cmsg_len" for z in _walk16(e4[2])):
                         wraps.append((p4, span_str(st4["sp"]), show(e4)[:100]))
     ck.ob("C16.1", "buffer-supplied-length-never-subtracted", not wraps, fn=wraps[0][0] if wraps else None, site=wraps[0][1] if wraps else None,
           detail=f"a difference with cmsg_len as subtrahend: {[w[2] for w in wraps]}; it wraps for a message longer than the remaining control data")
